@@ -357,22 +357,30 @@ _NUM_IN_TEXT = None
 
 
 def _same_text(x, y, rel):
-    """texts built by & from computed numbers ('-0.4999999-txt' vs '-0.4999999000000006-txt') differ by
-    float noise of the summation order (python's sum() compensates for exact floats only, and values
-    loaded from yaml/json are float subclasses): compare the numbers embedded in the text numerically"""
+    """texts built by & from computed numbers ('-0.4999999-txt' vs '-0.4999999000000006-txt', '0s' vs
+    '2e-300s') differ by float noise of the summation order (python's sum() compensates for exact floats only,
+    and values loaded from yaml/json are float subclasses): compare the numbers embedded in the text
+    numerically.  Two plain integers that a double holds exactly must still be the same digits."""
     global _NUM_IN_TEXT
     import re
     if _NUM_IN_TEXT is None:
-        # decimals, exponent forms, and integers too long for a double to hold exactly
-        _NUM_IN_TEXT = re.compile(r'\d+\.\d+(?:[eE][-+]?\d+)?|\d+[eE][-+]?\d+|\d{16,}')
+        _NUM_IN_TEXT = re.compile(r'-?\d+(?:\.\d+)?(?:[eE][-+]?\d+)?')
     px, py = _NUM_IN_TEXT.split(x), _NUM_IN_TEXT.split(y)
     if px != py:
         return False
     nx, ny = _NUM_IN_TEXT.findall(x), _NUM_IN_TEXT.findall(y)
     for u, v in zip(nx, ny):
+        if u == v:
+            continue
+        plain_u, plain_v = u.lstrip('-').isdigit(), v.lstrip('-').isdigit()
+        if plain_u and plain_v and len(u.lstrip('-')) < 16 and len(v.lstrip('-')) < 16:
+            return False            # different integers
         fu, fv = float(u), float(v)
-        tol = 1e-13 if u.isdigit() else max(rel, 1e-12)      # long integers: only the last bits of a double
-        if fu != fv and abs(fu - fv) > tol * max(abs(fu), abs(fv)):
+        if plain_u and plain_v:
+            tol, slack = 1e-13, 0.0      # long integers: only the last bits of a double
+        else:
+            tol, slack = max(rel, 1e-12), 1e-12
+        if fu != fv and abs(fu - fv) > tol * max(abs(fu), abs(fv)) + slack:
             return False
     return True
 
